@@ -220,7 +220,7 @@ class ImageFP:
     def __init__(self, out):
         self.chunks = sorted(out.chunks, key=lambda c: c[0])
         # metadata written at SYMBOLIC positions (e.g. the UDF anchor in the last sector of a symbolic-size image)
-        self.sym_chunks = [(p, d) for (p, d) in out.spans if not isinstance(d, Span)]
+        self.sym_chunks = [(p, d) for (p, d) in out.spans if not isinstance(d, Span) and len(d) >= 16]      # descriptors, not the 1-byte end padding
         self.pos = 0
         self.n = out.end
         self.span_reads = []
